@@ -74,7 +74,7 @@ theorem lost3_basic (s : St) :
 theorem inv1_step (s : St) (e : Ev) (h : Inv1 s) : Inv1 (step .repaired s e) := by
   obtain ⟨h1, h2, h3, h4, h5, h6, h7⟩ := h
   cases e with
-  | attemptFails =>
+  | attemptFails why =>
     simp only [step]
     split
     · rename_i hp
@@ -288,7 +288,7 @@ theorem concludes_step (s : St) (e : Ev) (hi : Inv1 s) (hc : concludes s e = tru
       | true => have := hi.bus.mp hbn; simp_all
     simp only [step, hp, if_true]
     rw [connectionLost_early s hb]; simp [Phase.concluded]
-  | attemptFails =>
+  | attemptFails why =>
     have hp : s.phase = .connecting ∧ s.remaining = [] := by simpa [concludes] using hc
     simp [step, hp.1, tryNext, hp.2, fire, Phase.concluded]
   | _ => simp [concludes] at hc
